@@ -16,7 +16,8 @@ static int run_case(int which, long a, long b) {
     setenv("MYTH_NUM_WORKERS", "2", 1);
     struct timespec rq = { a, b };
     int r;
-    switch (which) { case 0: r = myth_nanosleep(&rq, 0); break; case 1: r = myth_usleep((useconds_t)a); break; default: r = (int)myth_sleep((unsigned)a); break; }
+    switch (which) { case 0: r = myth_nanosleep(&rq, 0); break; case 3: r = myth_nanosleep(&rq, &rq); break; /* the restart idiom: remainder over the request */
+    case 4: { struct timespec rm = { 77, 77 }; r = myth_nanosleep(&rq, &rm); if (r == 0 && (rm.tv_sec < 0 || rm.tv_nsec < 0 || rm.tv_nsec > 999999999L)) r = -1; break; } case 1: r = myth_usleep((useconds_t)a); break; default: r = (int)myth_sleep((unsigned)a); break; }
     _exit(r == 0 ? 0 : r == EINVAL ? 1 : 2);
   }
   int st = 0; if (sq_wait_child(pid, 90, &st)) return -1;
@@ -56,12 +57,17 @@ int main(int argc, char ** argv) {
     SQ.evaluations++; SQ.states++; SQ.transitions++;
     sq_sample("nanosleep({%ld,%ld}) -> %s", VS[i], VN[j], got == 0 ? "0" : got == 1 ? "EINVAL" : "other");
     if (got != want) { char key[100]; snprintf(key, sizeof key, "nanosleep({%ld,%ld})", VS[i], VN[j]); sq_found(key, "", "returned class %d, expected %s", got, want ? "EINVAL" : "0"); }
+    /* the same request with a remainder argument: the request itself (nanosleep(&ts, &ts)) or a separate object */
+    for (int w = 3; w <= 4; w++) {
+      got = run_case(w, VS[i], VN[j]); SQ.evaluations++; SQ.states++; SQ.transitions++;
+      if (got != want) { char key[100]; snprintf(key, sizeof key, "nanosleep({%ld,%ld}, rem=%s)", VS[i], VN[j], w == 3 ? "req" : "other"); sq_found(key, "", "returned class %d, expected %s", got, want ? "EINVAL" : "0"); }
+    }
   }
   static const long US[] = { 0, 1, 999, 1000, 2500 };
   for (int i = 0; i < 5; i++) { int got = run_case(1, US[i], 0); SQ.evaluations++; SQ.states++; SQ.transitions++; if (got != 0) { char key[60]; snprintf(key, sizeof key, "usleep(%ld)", US[i]); sq_found(key, "", "returned class %d", got); } }
   { int got = run_case(2, 0, 0); SQ.evaluations++; SQ.states++; SQ.transitions++; if (got != 0) sq_found("sleep(0)", "", "returned class %d", got); }
   if (tier) { int got = run_case(2, 1, 0); SQ.evaluations++; SQ.states++; SQ.transitions++; if (got != 0) sq_found("sleep(1)", "", "returned class %d", got); }
   SQ.distinct = SQ.evaluations;
-  sq_detail("timespec_add and timespec_gt on all %d x %d pairs of (sec,nsec) boundary values; nanosleep on 12 (sec,nsec) validity classes; usleep/sleep small values", nsec * nns, nsec * nns);
+  sq_detail("timespec_add and timespec_gt on all %d x %d pairs of (sec,nsec) boundary values; nanosleep on 12 (sec,nsec) validity classes x {rem NULL, rem == req, rem separate}; usleep/sleep small values", nsec * nns, nsec * nns);
   return sq_end(stats);
 }
